@@ -16,7 +16,8 @@ class Constant(ASTNode):
 
     def get_string(self, *args, **kwargs):
         if isinstance(self.value, str) and self.with_quotes:
-            val = self.value.replace("'", "\\'")
+            # a doubled quote is read as one quote by the lexers of all three dialects (only the mindsdb lexer knows \')
+            val = self.value.replace("'", "''")
             out_str = f"\'{val}\'"
         elif isinstance(self.value, bool):
             out_str = 'TRUE' if self.value else 'FALSE'
